@@ -1241,3 +1241,9 @@ mod tests {
         assert_eq!(chunk, PayloadItem::Chunk(Bytes::from_static(b"a")));
     }
 }
+
+#[cfg(kani)]
+#[allow(semicolon_in_expressions_from_non_local_macros, unused)]
+mod verif_kani {
+    include!(concat!(env!("VERIF_HARNESS"), "/actix_http/h1_decoder.rs"));
+}
